@@ -196,7 +196,83 @@ func runMesh2(src *choice.Source, st *Stats) (fs []Finding) {
 	for len(h.pool) < 4 {
 		h.pool = append(h.pool, model2d.XY(float64(len(h.pool)), 1))
 	}
-	switch src.Intn(4) {
+	switch src.Intn(6) { // (recorded tapes hold reduced values, so the range may grow)
+	case 4, 5:
+		// bystander: a library operation that returns a new mesh is applied to a
+		// closed outline (queried before or not, copied before or not) and its
+		// result thrown away; the source and the earlier copy must not notice -
+		// neither their face values nor, as the history goes on, their index
+		var s0 *model2d.Mesh
+		if src.Chance(1, 2) {
+			// a rectangle outline with extra colinear vertices on every side
+			k := 2 + src.Intn(3)
+			corners := []model2d.Coord{model2d.XY(0, 0), model2d.XY(2, 0), model2d.XY(2, 1), model2d.XY(0, 1)}
+			s0 = model2d.NewMesh()
+			for c := range corners {
+				a, b := corners[c], corners[(c+1)%4]
+				for i := 0; i < k; i++ {
+					p := a.Add(b.Sub(a).Scale(float64(i) / float64(k)))
+					q := a.Add(b.Sub(a).Scale(float64(i+1) / float64(k)))
+					if i+1 == k {
+						q = b
+					}
+					s0.Add(&model2d.Segment{p, q})
+				}
+			}
+		} else {
+			s0 = model2d.NewMeshPolar(func(t float64) float64 { return 1 + 0.2*math.Sin(3*t) }, 8+src.Intn(12))
+		}
+		if src.Chance(1, 2) {
+			s0.VertexSlice()
+		}
+		var cp *model2d.Mesh
+		if src.Chance(1, 2) {
+			cp = s0.Copy()
+			if src.Chance(1, 2) {
+				cp.VertexSlice()
+			}
+		}
+		before := segValues(s0.SegmentSlice(), true)
+		opName := ""
+		switch src.Intn(8) {
+		case 0:
+			s0.EliminateColinear(1e-8)
+			opName = "EliminateColinear"
+		case 1:
+			s0.Decimate(4 + src.Intn(6))
+			opName = "Decimate"
+		case 2:
+			s0.Subdivide(1)
+			opName = "Subdivide"
+		case 3:
+			s0.Repair(1e-8)
+			opName = "Repair"
+		case 4:
+			s0.Smooth(1 + src.Intn(3))
+			opName = "Smooth"
+		case 5:
+			s0.Blur(0.5)
+			opName = "Blur"
+		case 6:
+			s0.Invert()
+			opName = "Invert"
+		default:
+			s0.SubdividePath(1)
+			opName = "SubdividePath"
+		}
+		h.trace = append(h.trace, "bystander of "+opName)
+		if after := segValues(s0.SegmentSlice(), true); after != before {
+			return []Finding{{"mesh2|bystander-values", fmt.Sprintf("%s changed the faces of the mesh it was called on (it returns a new mesh)", opName)}}
+		}
+		if cp != nil {
+			if after := segValues(cp.SegmentSlice(), true); after != before {
+				return []Finding{{"mesh2|bystander-values", fmt.Sprintf("%s changed the faces of an earlier Copy of the mesh it was called on", opName)}}
+			}
+		}
+		h.real = s0
+		if cp != nil && src.Chance(1, 2) {
+			h.real = cp
+		}
 	case 0:
 		h.real = model2d.NewMesh()
 	case 1:
@@ -269,6 +345,9 @@ func runMesh2(src *choice.Source, st *Stats) (fs []Finding) {
 			}
 			for _, s := range add {
 				other.Add(s)
+			}
+			if len(add)%2 == 0 {
+				other.VertexSlice() // both indexes exist (decided from values already drawn)
 			}
 			h.real.AddMesh(other)
 			for _, s := range add {
